@@ -119,6 +119,25 @@ func (x *Exec) atLoopHeader(st *State, lp *loop, from *ssa.BasicBlock) bool {
 	}
 	for _, b := range sortedBlocks(lp.blocks) {
 		for _, in := range b.Instrs {
+			if sto, ok := in.(*ssa.Store); ok {
+				// a non-escaping local (defined outside the loop) assigned in the loop is loop-carried state
+				root := sto.Addr
+				for {
+					if fa, ok := root.(*ssa.FieldAddr); ok {
+						root = fa.X
+						continue
+					}
+					break
+				}
+				if al, ok := root.(*ssa.Alloc); ok && !lp.blocks[al.Block()] {
+					for f := fr; f != nil; f = f.parent {
+						if _, isLocal := f.locals[al]; isLocal {
+							f.locals[al] = x.freshVal(st, deref(al.Type()), "loop."+al.Comment)
+							break
+						}
+					}
+				}
+			}
 			if nx, ok := in.(*ssa.Next); ok {
 				if it, ok := st.iters[nx.Iter]; ok {
 					ks := sortOf(under(it.mty).(*types.Map).Key())
